@@ -7,6 +7,13 @@ def sh(cmd, cwd=None, timeout=1800):
     r = subprocess.run(cmd, shell=True, cwd=cwd, capture_output=True, text=True, timeout=timeout)
     return r.returncode, (r.stdout + r.stderr)
 
+def restore_evidence(checks):
+    """restore evidence: evidence files are rewritten by every run, also by the runs against the seeded tree;
+    re-run the checks on the unchanged tree so that what gets committed describes the unchanged tree"""
+    for c in checks or []:
+        sh(f'python3 check/run.py {c} --tier quick', cwd='/verif', timeout=3000)
+
+
 def main():
     pid, wt = sys.argv[1], sys.argv[2]
     checks = None
@@ -52,6 +59,7 @@ def main():
         finally:
             sh('git -C /repo checkout -- .')
     report['checks'] = results
+    restore_evidence(checks)
     print(json.dumps(report, indent=1))
     if '--keep' in sys.argv or True:
         d = os.path.join('/verif/seeded', name)
